@@ -88,6 +88,12 @@ type Conn struct {
 	// NoRead makes Start skip the reader goroutine (flood scripts).
 	NoRead bool
 
+	// read gate: when gated the reader goroutine needs one permit per frame it reads
+	gateMu   sync.Mutex
+	gateCond *sync.Cond
+	gated    bool
+	permits  int
+
 	pingSeq uint64
 	Timeout time.Duration // safety timeout of Wait*/Sync (default 60s); a timeout is reported, never judged
 }
@@ -96,6 +102,7 @@ type Conn struct {
 func New(nc net.Conn) *Conn {
 	c := &Conn{nc: nc, AutoAckSettings: true, Timeout: 60 * time.Second}
 	c.cond = sync.NewCond(&c.mu)
+	c.gateCond = sync.NewCond(&c.gateMu)
 	c.fr = http2.NewFramer(nc, nc)
 	c.fr.AllowIllegalWrites = true
 	c.fr.AllowIllegalReads = true
@@ -143,6 +150,7 @@ func (c *Conn) readLoop() {
 	var pending *Event
 	var block []byte
 	for {
+		c.acquireRead()
 		f, err := c.fr.ReadFrame()
 		if err != nil {
 			c.mu.Lock()
@@ -235,6 +243,42 @@ func (c *Conn) deliver(ev *Event) {
 	c.events = append(c.events, *ev)
 	c.cond.Broadcast()
 	c.mu.Unlock()
+}
+
+// Gate makes the reader goroutine stop before its next ReadFrame until
+// permits are granted. A ReadFrame that is already in progress still consumes
+// one frame (send a PING and wait for its ack to absorb that one).
+func (c *Conn) Gate() {
+	c.gateMu.Lock()
+	c.gated, c.permits = true, 0
+	c.gateMu.Unlock()
+}
+
+// Permit lets the gated reader read n more frames (CONTINUATION frames count).
+func (c *Conn) Permit(n int) {
+	c.gateMu.Lock()
+	c.permits += n
+	c.gateCond.Broadcast()
+	c.gateMu.Unlock()
+}
+
+// Ungate removes the read gate.
+func (c *Conn) Ungate() {
+	c.gateMu.Lock()
+	c.gated = false
+	c.gateCond.Broadcast()
+	c.gateMu.Unlock()
+}
+
+func (c *Conn) acquireRead() {
+	c.gateMu.Lock()
+	for c.gated && c.permits == 0 {
+		c.gateCond.Wait()
+	}
+	if c.gated {
+		c.permits--
+	}
+	c.gateMu.Unlock()
 }
 
 // Events returns a copy of the event log.
